@@ -126,6 +126,10 @@ def _run_race(env, p, cosched, fc):
             value = data if action == 'change' else float(n)
             self.lines.append(encode_msg_frame(REQUEST2REPLY[action], ident, [value, {'t': 1.0, 'n': n}]))
 
+        def __bool__(self):
+            cosched.yield_point('io-test')       # 'if self.io:' is a place where another thread may set self.io = None
+            return True
+
         def writeline(self, line):
             cosched.yield_point('send')
             self.lines.append(b'ISSE&SINE2020,SECoP,V2019-09-16,v1.0\n')
